@@ -435,6 +435,7 @@ func TestC11(t *testing.T) {
 	r := ev.New("C11", "exploration",
 		"kleene_exhaustive: every AND/OR/NOT tree of depth<=2 over leaves {a,b,c,TRUE,FALSE,NULL} evaluated through the real SQL pipeline (optimised and not) on all 27 assignments of {TRUE,FALSE,NULL}^3, both as a SELECT item and as a WHERE predicate; "+
 			"kleene_random: rapid trees of depth<=4 with 2-3-ary AND/OR; strict_functions: every Strict descriptor of functions.FunctionMap() reached through the real typechecker with every combination of nullable / non-nullable static argument types and, within it, every run-time NULL mask; "+
+			"strict_on_join_padding: comparisons, arithmetic, string functions and NOT over the columns of two tables whose columns are declared non-nullable, joined with LEFT / RIGHT / OUTER JOIN (all combinations, optimised and not): on every emitted row the expression is NULL exactly when it reads a padded side, (expr) IS NULL is the matching Boolean, and WHERE keeps no row whose predicate reads a padded column; "+
 			"is_null: IS [NOT] NULL on values of every kind with exact/nullable/Any static type. non-trivial: tree mentions a column (so NULL operands occur) / mask has a NULL / always for is_null. distinct = canonical case JSON",
 		"NOT applied directly to the NULL literal is rejected by the typechecker (not(NULL) has no overload): counted as discarded, it is a rejection, not a wrong value")
 	ev.Enumerate(t, r, "kleene_exhaustive", func(yield func(c11Expr) bool) {
@@ -454,6 +455,7 @@ func TestC11(t *testing.T) {
 			}
 		}
 	}, c11StrictProp)
+	ev.Enumerate(t, r, "strict_on_join_padding", c11PadCases, c11PadProp)
 	ev.Enumerate(t, r, "is_null", func(yield func(c11IsNull) bool) {
 		vals := []gen.JV{gen.Null(), gen.Int(0), gen.FromFloat(0), gen.Bool(false), gen.Str(""), gen.Time(0), gen.Time(5), gen.Dur(0), gen.List(), gen.List(gen.Null()), gen.Struct(gen.Null()), gen.Tuple(gen.Null(), gen.Int(1))}
 		for _, v := range vals {
